@@ -27,7 +27,7 @@ def main():
     seeds = ([1, 2, 3] if tier == "quick" else list(range(1, 12))) if shim else []
     R = len(seeds) + (1 if shim else (2 if tier == "quick" else 5))
     run.rule = (f"determinism half: every command (parse x4 kinds, translate x5, simplify 3 portfolios x 3 strategies, analyze x2, verify --no-proof-search --save-problems for every line of the examples' .tests files) "
-                f"on every corpus input (all example files + {len(SMALL_PROGRAMS)} small programs and their tau-star/gamma theories) is executed {R} times in fresh processes ({len(seeds)} with harness-chosen hash seeds, the rest free-running) and compared byte-wise (stdout, exit status, every saved problem file)")
+                f"on every corpus input (all example files + {len(SMALL_PROGRAMS)} small programs and their tau-star/gamma theories) is executed {R} times in fresh processes ({len(seeds)} with harness-chosen hash seeds, the rest free-running) and compared byte-wise (stdout, exit status, every saved problem file); and problem files written into a directory that already holds another task's files of the same names must equal those written into a fresh directory")
     if shim:
         run.assumptions.append(f"hash-map iteration order: the RandomState keys are owned by the harness (getrandom interposed through LD_PRELOAD, validated below on a probe); the seed list {seeds} is enumerated, not all 2^128 keys: an order dependence that shows for none of these seeds on none of the corpus inputs is missed. One additional free-running process per command (own keys, ASLR on) covers address-dependent orders as a sample. The input dimension is exhaustive over the corpus. The corpus contains theories of 12 and 24 formulas so that any concurrent processing of a theory's formulas before the prover stage would show; thread timing itself is not controlled by the harness, so in that dimension repeated runs are a sample (C10 controls the prover stage)")
     else:
@@ -82,6 +82,14 @@ def main():
             for flags in ([], ["--decomposition", "independent"], ["--no-simplify", "--no-eq-break"]):
                 jobs.append((["verify", "--equivalence", "external", "--no-proof-search", "--save-problems", "$OUT"] + flags + ["a.lp", "b.lp", "t.ug"], d))
             jobs.append((["verify", "--equivalence", "strong", "--no-proof-search", "--save-problems", "$OUT", "a.lp", "b.lp"], d))
+        # the emitted problem files must not depend on what an earlier run left in the output directory: write a
+        # LARGER task's problems into a directory first, then the task itself, and compare with a fresh directory
+        reuse_jobs = []
+        for i in range(len(ext)):
+            big = f"{base}/ext_{(i + 1) % len(ext)}"
+            small = f"{base}/ext_{i}"
+            for eq, files in (("external", ["a.lp", "b.lp", "t.ug"]), ("strong", ["a.lp", "b.lp"])):
+                reuse_jobs.append((eq, files, big, small))
         run.extra["determinism_commands"] = len(jobs)
         def do(job):
             args, cwd = job
@@ -110,6 +118,24 @@ def main():
                 run.observe((outs[0][1], outs[0][2]))
                 if len(set(outs)) != 1:
                     run.violation("nondeterministic_output|" + args[0], {"args": args, "cwd": cwd, "observations": [str(o) for o in outs]})
+        for eq, files, big, small in reuse_jobs:
+            def problems(dirs_in_order):
+                out_dir = scratch("c18r_")
+                try:
+                    for d in dirs_in_order:
+                        run_anthem(["verify", "--equivalence", eq, "--no-proof-search", "--save-problems", out_dir] + files, cwd=d, timeout=120)
+                    names = sorted(os.listdir(out_dir))
+                    return {f: hashlib.sha1(open(os.path.join(out_dir, f), "rb").read()).hexdigest() for f in names}
+                finally:
+                    shutil.rmtree(out_dir, ignore_errors=True)
+            fresh = problems([small])
+            reused = problems([big, small])
+            run.states += 1; run.transitions += 3
+            run.observe(("reuse", eq, tuple(sorted(fresh.items()))))
+            diff = [f for f in fresh if reused.get(f) != fresh[f]]
+            if diff:
+                run.violation("output_depends_on_existing_files|verify", {"equivalence": eq, "first_task_dir": os.path.basename(big), "task_dir": os.path.basename(small),
+                              "files_that_differ_from_a_fresh_directory": diff[:6], "what": "problem files written into a directory that already held (longer) files of the same names differ from those written into a fresh directory"})
         run.sample({"command": jobs[0][0], "repeats": R})
     finally:
         shutil.rmtree(base, ignore_errors=True)
